@@ -380,6 +380,22 @@ def replay_journal_creation(body):
         shutil.rmtree(d, ignore_errors=True)
 
 
+def replay_battery_init(body):
+    """construct every stateful battery natively and compare what _serialize() returns with the attributes its __init__ created"""
+    import pysyncobj.batteries as B
+    bad = []
+    for name, args in (('ReplCounter', ()), ('ReplList', ()), ('ReplDict', ()), ('ReplSet', ()), ('ReplQueue', (3,)), ('ReplPriorityQueue', (3,)),
+                       ('_ReplLockManagerImpl', (10.0,))):
+        o = getattr(B, name)(*args)
+        state = sorted(k for k in vars(o) if k not in ('_syncObj', '_SyncObjConsumer__properies'))
+        got = sorted(o._serialize())
+        if got != state:
+            bad.append('%s: _serialize() holds %r, the state attributes are %r' % (name, got, state))
+    for b in bad:
+        out(b)
+    return (1 if bad else 0), ('a battery drops state from its snapshot' if bad else 'every battery serialises exactly its state attributes')
+
+
 def replay_meta(body):
     """kill-point enumeration on the real MetaStorer.storeMeta: the k-th primitive file operation (open / write / flush / close /
     os.remove / os.rename / shutil.move ...) is the last one to happen before the process dies; the .meta file is then read back"""
@@ -512,6 +528,7 @@ REPLAYERS = {
     'ResizableFile.write': replay_journal, 'FileJournal.add': replay_journal, 'FileJournal.reopen': replay_journal,
     'FileJournal.deleteEntriesFrom': replay_journal, 'FileJournal.clear': replay_journal,
     'MetaStorer.storeMeta': replay_meta,
+    'bat.init-state-serialized': replay_battery_init,
     'ResizableFile.open': replay_journal_creation,
 }
 
